@@ -30,8 +30,9 @@ Ins == [P1 |-> <<"a", "b">>, P2 |-> <<"x", "b">>, P3 |-> <<"y", "q">>, P4 |-> <<
 Half == Period \div 2
 Never == 1000000000
 
-VARIABLES fn, scripts, curr, nxt, ready, todo, expect, phase, pc, obs, now, clkT, wait, deadline, sampled, woken, wsig
-vars == <<fn, scripts, curr, nxt, ready, todo, expect, phase, pc, obs, now, clkT, wait, deadline, sampled, woken, wsig>>
+VARIABLES fn, scripts, curr, nxt, ready, todo, expect, phase, pc, obs, now, clkT, wait, deadline, sampled, woken, wsig,
+          cur            \* the testbench that ran last at this instant (0: none yet)
+vars == <<fn, scripts, curr, nxt, ready, todo, expect, phase, pc, obs, now, clkT, wait, deadline, sampled, woken, wsig, cur>>
 
 TBs == 1..Len(scripts)
 (* derived state observable by testbenches: "rq" is ONE two-bit register whose bit 0 is driven by the fragment   *)
@@ -62,14 +63,21 @@ Init ==
     /\ wait = [i \in TBs |-> "none"] /\ deadline = [i \in TBs |-> Never]
     /\ sampled = curr /\ woken = [i \in TBs |-> FALSE]
     /\ wsig = [i \in TBs |-> <<"", 0>>]          \* signal (and polarity) a changed() / edge() wait is about
+    /\ cur = 0
 
 (* ------------------------------- testbenches ------------------------------- *)
 Runnable(i) == wait[i] \in {"ticked", "fired"} \/ (wait[i] = "none" /\ pc[i] <= Len(scripts[i]))
 AnyRunnable == \E i \in TBs : Runnable(i)
-(* testbenches always run in the order in which they were added *)
+(* testbenches always run in the order in which they were added: the kernel passes over them in that order again    *)
+(* and again; the one it has reached runs until it waits (a write returns to the SAME testbench once the design has *)
+(* settled), then the pass goes on with the runnable ones added after it, and starts over when there are none       *)
+MidRun == cur # 0 /\ wait[cur] = "none" /\ pc[cur] <= Len(scripts[cur])
+Least(S) == CHOOSE i \in S : \A j \in S : i <= j
 NextTb == IF Mutant = "reverse_tb"
           THEN CHOOSE i \in TBs : Runnable(i) /\ \A j \in TBs : Runnable(j) => j <= i
-          ELSE CHOOSE i \in TBs : Runnable(i) /\ \A j \in TBs : Runnable(j) => i <= j
+          ELSE IF MidRun THEN cur
+          ELSE LET later == {i \in TBs : Runnable(i) /\ i > cur} IN
+               IF later # {} THEN Least(later) ELSE Least({i \in TBs : Runnable(i)})
 
 (* a resumed tick wait that is not over yet: more repeats to go, or the until-condition was zero before this edge *)
 TickAgain(i) == \/ wsig[i][1] = "#rep" /\ wsig[i][2] > 1
@@ -123,6 +131,7 @@ TbStep ==
             [] op[1] = "delay" ->
                  /\ wait' = [wait EXCEPT ![i] = "delay"] /\ deadline' = [deadline EXCEPT ![i] = now + op[2]]
                  /\ UNCHANGED <<nxt, obs, expect, phase>>
+    /\ cur' = NextTb
     /\ UNCHANGED <<fn, scripts, curr, ready, todo, now, clkT, sampled, woken>>
 
 (* no testbench can run: either all scripts are finished, or time must pass *)
@@ -131,7 +140,7 @@ TbIdle ==
     /\ IF \A i \in TBs : pc[i] = Len(scripts[i]) + 1 /\ wait[i] = "none"
        THEN phase' = "done" /\ PrintT(<<"DONE", fn, scripts, obs>>)   \* the observations every schedule yields
        ELSE phase' = "time"
-    /\ UNCHANGED <<fn, scripts, curr, nxt, ready, todo, expect, pc, obs, now, clkT, wait, deadline, sampled, woken, wsig>>
+    /\ UNCHANGED <<fn, scripts, curr, nxt, ready, todo, expect, pc, obs, now, clkT, wait, deadline, sampled, woken, wsig, cur>>
 
 (* -------------------------------- timeline -------------------------------- *)
 MinDeadline == LET S == {deadline[i] : i \in TBs} IN CHOOSE d \in S : \A e \in S : d <= e
@@ -146,6 +155,7 @@ AdvanceTime ==
        /\ deadline' = [i \in TBs |-> IF deadline[i] = Earliest THEN Never ELSE deadline[i]]
        /\ todo' = ready' /\ expect' = [curr EXCEPT !["clk"] = IF clkFires THEN 1 - curr["clk"] ELSE curr["clk"]]
        /\ phase' = IF ready' = {} THEN "converged" ELSE "eval"
+    /\ cur' = 0                                    \* a new instant: the passes over the testbenches start afresh
     /\ UNCHANGED <<fn, scripts, curr, nxt, pc, obs, wait, sampled, wsig>>
 
 (* ------------------------------- delta cycle ------------------------------- *)
@@ -154,7 +164,7 @@ RunProc(p) ==
     /\ nxt' = [nxt EXCEPT ![Out[p]] = Fun(p, IF Mutant = "read_pending" THEN nxt ELSE curr)]
     /\ todo' = todo \ {p}
     /\ phase' = IF todo' = {} THEN "commit" ELSE "eval"
-    /\ UNCHANGED <<fn, scripts, curr, ready, expect, pc, obs, now, clkT, wait, deadline, sampled, woken, wsig>>
+    /\ UNCHANGED <<fn, scripts, curr, ready, expect, pc, obs, now, clkT, wait, deadline, sampled, woken, wsig, cur>>
 
 Changed == {s \in Sigs : nxt[s] # curr[s]}
 Sensitive(p) == IF p \in {"P3", "P4"} THEN ("clk" \in Changed /\ nxt["clk"] = 1)  \* clocked logic: active edge only
@@ -174,7 +184,7 @@ Commit ==
     /\ expect' = [s \in Sigs |-> IF \E p \in ready' : Out[p] = s
                                  THEN Fun(CHOOSE p \in ready' : Out[p] = s, nxt) ELSE nxt[s]]
     /\ phase' = IF ready' = {} THEN "converged" ELSE "eval"
-    /\ UNCHANGED <<fn, scripts, nxt, pc, obs, now, clkT, wait, deadline, wsig>>
+    /\ UNCHANGED <<fn, scripts, nxt, pc, obs, now, clkT, wait, deadline, wsig, cur>>
 
 Converged ==           \* nothing is ready: wake the testbenches whose wait is over
     /\ phase = "converged"
@@ -184,7 +194,7 @@ Converged ==           \* nothing is ready: wake the testbenches whose wait is o
                               ELSE IF woken[i] /\ wait[i] \in {"chg", "edge"} THEN "fired"
                               ELSE IF woken[i] THEN "none" ELSE wait[i]]
     /\ woken' = [i \in TBs |-> FALSE]
-    /\ UNCHANGED <<fn, scripts, curr, nxt, ready, todo, expect, pc, obs, now, clkT, deadline, sampled, wsig>>
+    /\ UNCHANGED <<fn, scripts, curr, nxt, ready, todo, expect, pc, obs, now, clkT, deadline, sampled, wsig, cur>>
 
 Next == TbStep \/ TbIdle \/ AdvanceTime \/ (\E p \in Procs : RunProc(p)) \/ Commit \/ Converged
 Spec == Init /\ [][Next]_vars
